@@ -508,7 +508,7 @@ var JavascriptTestValue interface{}
 // Currently the Javascript implementation is
 // https://github.com/robertkrimen/otto.  We might also eventually
 // support https://code.google.com/p/v8/ .
-func RunJavascript(ctx *Context, bs *Bindings, props map[string]interface{}, src interface{}) (interface{}, error) {
+func RunJavascript(ctx *Context, bs *Bindings, props map[string]interface{}, src interface{}) (result interface{}, err error) {
 	timer := NewTimer(ctx, "RunJavascript")
 	defer timer.Stop()
 	Log(DEBUG, ctx, "core.RunJavascript", "code", src)
@@ -914,12 +914,18 @@ func RunJavascript(ctx *Context, bs *Bindings, props map[string]interface{}, src
 				if caught == Halt {
 					Log(WARN, ctx, "core.RunJavascript", "timedout", timeout,
 						"after", duration, "time", time.Now())
+					// The caller needs to know.
+					result = nil
+					err = fmt.Errorf("Javascript execution timed out after %v", timeout)
 					return
 				}
 				panic(caught) // Something else happened, so repanic!
 			}
 		}()
-		watchdogCleanup := make(chan bool)
+		// Buffered: the watchdog might be gone (after a timeout) by
+		// the time we say we are done, and then nobody would be
+		// receiving.
+		watchdogCleanup := make(chan bool, 1)
 		runtime.Interrupt = make(chan func(), 1) // No blocking
 
 		defer func() {
@@ -949,5 +955,5 @@ func RunJavascript(ctx *Context, bs *Bindings, props map[string]interface{}, src
 		Log(ERROR, ctx, "core.RunJavascript", "error", err.Error(), "when", "v.Export")
 		return nil, err
 	}
-	return x, err
+	return x, nil
 }
